@@ -741,7 +741,7 @@ def run(ctx):
               nontrivial=totals["accepted"] + fb["scripts"], helper_calls=totals["calls"],
               helper_returned=totals["accepted"], helper_refused_assertion=totals["ra"],
               helper_refused_other_exception=totals["ro"], processed_by_order=totals["processed"],
-              fidelity_steps=fb["steps"])
+              fidelity_steps=fb["steps"], fabrication_cpu_seconds=int(totals.get("cpu", 0)))
     if unexpanded:
         ctx.notes.append(f"(a) {unexpanded} states found at the depth bound / beyond the budget were not expanded")
     paths = list(seen.values())
